@@ -7,8 +7,8 @@ from . import lib, asynclib as al
 
 def gen_history(r, kind=None):
     kind = kind or r.choice(["run", "step", "restart"])
-    if kind == "run": return ["run"] * r.randint(1, 4) + ["stop"]
-    if kind == "step": return ["reset"] + ["step"] * r.randint(0, 4) + ["stop"]
+    if kind == "run": return ["run"] * r.randint(2, 6) + ["stop"]
+    if kind == "step": return ["reset"] + ["step"] * r.randint(1, 6) + ["stop"]
     a = ["run"] * r.randint(1, 3) if r.random() < 0.5 else ["reset"] + ["step"] * r.randint(0, 3)
     return a + ["reset"] + ["step"] * r.randint(1, 3) + ["stop"]
 
@@ -36,6 +36,8 @@ def run(chk, replay=None):
         hist = [gen_history(r) for _ in range(3)]
         j = dict(id=f"hist:{i}", cfg=cfg, history=hist)
         if i % 3 == 1: j["perturb"] = dict(kind="random", seed=r.getrandbits(16), p=0.5, max_ms=3)
+        if i % 3 == 2: j["perturb"] = dict(kind="points", ms=40, points=r.choice([["sup:before_append"], ["sup:after_append"], ["sup:before_check"],
+                                                                                  ["sup:before_append", "stop:after_flip"]]))
         if i % 6 == 5: j["clock"] = "wall"; j["rtf"] = 1; j["history"] = [h[:3] + ["stop"] if len(h) > 4 else h for h in hist]
         jobs.append(j)
     res = al.run_jobs(jobs, nproc=8, per_job_timeout=25)
